@@ -510,6 +510,8 @@ class Folder:
             return None
         if k == "If":
             c = self.fold(e["cond"])
+            if isinstance(c, Token) and getattr(self, "sym_cmp", False):
+                c = Sym(("atom", c, True))      # an opaque boolean (result of an unmodelled call) as a symbolic condition
             if isinstance(c, Sym):
                 return self._sym_branch(e, c)
             if not isinstance(c, (bool, int)) or isinstance(c, Token):
@@ -1940,12 +1942,26 @@ class Folder:
                 old = cont[key]
                 cont[key] = s_or(s_not(c), old) if lit else s_and(c, old)
             return None
+        # `if <symbolic> { v.push(x); }` (no else): the push is recorded as guarded by the condition, v itself is left alone
+        if getattr(self, "guarded", None) is not None and ("else" not in e or _is_unit(e["else"])):
+            n = e["then"]
+            while n.get("k") in ("Scope", "Use") or (n.get("k") == "Block" and not n.get("stmts") and "expr" in n):
+                n = n.get("expr") if n.get("k") == "Block" else n.get("value") or n.get("arg") or n.get("expr")
+            sts = ([st["expr"] for st in n.get("stmts", []) if st.get("k") == "Expr"] + ([n["expr"]] if "expr" in n and not _is_unit(n["expr"]) else [])) if n.get("k") == "Block" else [n]
+            if n.get("k") != "Block" or len(sts) == len(n.get("stmts", [])) + (1 if "expr" in n and not _is_unit(n["expr"]) else 0):
+                calls = [strip(x) for x in sts]
+                if calls and all(x.get("k") == "Call" and canon(callee_of(x)).endswith("Vec::push") and len(x["args"]) == 2 for x in calls):
+                    for x in calls:
+                        self.guarded.append((c, _loaded(self.fold(x["args"][1]))))
+                    return None
         raise Undecidable("branch on a symbolic condition")
 
     def _bin(self, op, a, b, e):
         a, b = _loaded(a), _loaded(b)
         if (isinstance(a, Sym) or isinstance(b, Sym)) and op in ("BitOr", "BitAnd") and all(isinstance(x, (Sym, bool)) for x in (a, b)):
             return s_or(a, b) if op == "BitOr" else s_and(a, b)
+        if op in ("Lt", "Le", "Gt", "Ge") and getattr(self, "sym_cmp", False) and (isinstance(a, Token) or isinstance(b, Token)):
+            return Sym(("atom", (op, a), b))
         if op not in ("Eq", "Ne") and not (isinstance(a, (int, bool)) and isinstance(b, (int, bool))):
             raise Undecidable("arithmetic on an opaque value")
         if op in ("Eq", "Ne") and (isinstance(a, Token) or isinstance(b, Token)):
@@ -2029,6 +2045,10 @@ def call_trace(facts, fn, env, watch, local_calls=0):
                 pass
         return Token(cc.split("::")[-1] + "()")
     fo = Folder(facts, env=dict(env), on_call=on_call, effects=True, local_calls=local_calls)
+    # a guard on opaque values whose taken side is nothing but `return Err(..)` (an up-front refusal) does not make the dispatch
+    # undecidable: the trace is that of the requests that get past it
+    fo.sym_eq = lambda a_, b_: True
+    fo.sym_cmp = True
     res = fo.run(b["body"])
     return trace, res
 
